@@ -99,10 +99,14 @@ class MsgProp:
                 ops.append("N 0")
             bs = bytes.fromhex(mop.split(" ")[1])
             bits = ais.bytes_to_bits(bs)
-            # trailing zero bits need not be transmitted (they come back as padding)
-            trim, maxtrim = 0, rng.choice([0, 0, 1, 2, 3, 4, 5])
-            while trim < maxtrim and trim < len(bits) and bits[-1 - trim] == 0:
-                trim += 1
+            # messages need not end on a byte boundary: the last 0..7 bits are cleared and left to the fill
+            # count / padding, so that every (length mod 6, fill) combination occurs
+            trim = rng.choice([0, 0, 0, 1, 2, 3, 4, 5, 6, 7])
+            if trim and len(bits) > 8:
+                bits = bits[:len(bits) - trim] + [0] * trim
+                bs = ais.bits_to_bytes(bits)
+            else:
+                trim = 0
             payload, fill = ais.armor(bits[:len(bits) - trim] if trim else bits)
             if len(payload) > 380:
                 continue
@@ -117,6 +121,10 @@ class MsgProp:
                 cut = sorted(rng.sample(range(1, len(payload)), n - 1))
                 pieces = [payload[a:b] for a, b in zip([0] + cut, cut + [len(payload)])]
                 mid = rng.choice([None, 1, 5])
+                if rng.random() < 0.3:
+                    # the opening sentence of an earlier group with the same id and the same length whose
+                    # remainder never arrived
+                    ops.append(L(ais.sentence(gen.random_alphabet(rng, len(pieces[0])), fill=0, nf=n, fn=1, mid=mid), 0, 1))
                 for i, pc in enumerate(pieces):
                     ops.append(L(ais.sentence(pc, fill=fill if i == n - 1 else 0, nf=n, fn=i + 1, mid=mid), 0, 1))
                     if i < n - 1 and rng.random() < 0.4:
@@ -313,7 +321,8 @@ def sweep_fields(rep, tier, cfgs, owner):
     compared chunk by chunk with the same fold over the proved specification (ScaledSpec.renderRaw =
     ScaledSpec.render, Layouts.render_eq_renderRaw); small fields also through the whole model
     (parseMessage).  A differing chunk is bisected to the first raw value and replayed as an M op.
-    owner: "C10" reports wrong values / values missing, "C11" reports presence where absence is specified."""
+    owner: "C10" reports wrong values and values missing although the raw value is not the code; "C11"
+    reports every presence difference (C11's statement is an "exactly when": both directions are its own)."""
     from concurrent.futures import ThreadPoolExecutor
     from . import core
     jobs = []   # (cfg, type, fld, off, w, mode, lo, hi)
@@ -328,6 +337,9 @@ def sweep_fields(rep, tier, cfgs, owner):
                 for lo in range(0, 1 << w, step):
                     jobs.append((cfg, t, idx, fld, off, w, "r", lo, min(1 << w, lo + step)))
                 if w <= 12:
+                    # the same values through the specification on the rebuilt payload and through the whole model:
+                    # the three readings (raw value, rebuilt payload, parseMessage) must hash alike
+                    jobs.append((cfg, t, idx, fld, off, w, "s", 0, 1 << w))
                     jobs.append((cfg, t, idx, fld, off, w, "m", 0, 1 << w))
     def opline(j):
         cfg, t, idx, fld, off, w, mode, lo, hi = j
@@ -378,8 +390,11 @@ def sweep_fields(rep, tier, cfgs, owner):
                 rep.violation(f"{owner}: sweep {opline(j)!r} differs at raw {raw} but the single payload agrees: the sweep correspondence itself broke",
                               {"cfg": cfg, "ops": [f"X {mode} {t} {idx} {key} {off} {w} {raw} {raw + 1}", mop], "impl": ia, "model": ma})
                 continue
-            c11_kind = (mv == "none" and iv != "none")
-            if (owner == "C11") == c11_kind or iv in ("panic", "err", "abort"):
+            presence = (mv == "none") != (iv == "none")
+            mine = (owner == "C11" and presence) or (owner == "C10" and (not presence or iv == "none")) \
+                or iv in ("panic", "err", "abort")
+            c11_kind = presence
+            if mine:
                 what = (f"{key} of type {t} at raw {raw}: reported {iv}, specified {mv}")
                 rep.violation(f"{owner}: exhaustive sweep: {what}", {"cfg": cfg, "ops": [mop], "impl": ia, "model": ma})
             else:
@@ -775,8 +790,8 @@ class C16(MsgProp):
     id = "C16"
     name = "communication state"
     rule = ("M ops: types 1, 2, 3, 4, 9, 11, 18 at 168 bits with every time-out value x sub-message extremes and "
-            "random values, every sync state, both selector values, random ITDMA fields (thorough: a 2^19 sweep per "
-            "type is run by the harness side only on type 1 and 18); projection = radio.* keys, also compared "
+            "random values, every sync state, both selector values, random ITDMA fields, every hour x boundary minute (thorough: every minute) of the UTC sub-message with every sync state "
+            "(thorough: all 2^19 states for types 1, 3 and 18 with both selector values); projection = radio.* keys, also compared "
             "with an independent Python reading of ITU-R M.1371 (last 19 bits). non-trivial = distinct payload decoded ok")
 
     def project(self, op, ans):
@@ -824,6 +839,13 @@ class C16(MsgProp):
                         states.add((sync << 17) | (to << 14) | sub)
             for _ in range(nrand):
                 states.add(rng.getrandbits(19))
+            # every hour x minute of the UTC sub-message (time-out 1) and every received-station / slot count pattern
+            for sync in range(4):
+                for hour in range(32):
+                    for minute in ((0, 1, 58, 59, 60, 61, 62, 63, 64, 127) if tier == "quick" else range(128)):
+                        states.add((sync << 17) | (1 << 14) | (hour << 9) | (minute << 2) | rng.getrandbits(2))
+            if tier == "thorough" and t in (1, 3, 18):
+                states = set(range(1 << 19))      # the whole 19-bit state space (SOTDMA: 1, ITDMA: 3, both: 18)
             for v in sorted(states):
                 for sel in ((0, 1) if t in (9, 18) else (rng.getrandbits(1),)):
                     f = gen.base_fields(t, rng, layout)
